@@ -21,6 +21,11 @@ def plan(tier):
     p.append((S.T2(O=("PASS", "FAIL", "WARN", "SKIP", "ERROR")).variant("/O=5"), 1 if q else 2, 2))
     p.append((S.replay_of(S.T2(), "all passed, pools empty"), 1, 1))
     p.append((S.replay_of(S.T2(), "all passed, shared=chain", shared=S.VM1_CHAIN), 1, 1))
+    # workers bound to runtime slots (container / serial / remote): the slot's connection parameters must reach every test of that worker
+    for nets, slots in (("net1 net2", "5 "), ("net1 net2", "5 7"), ("net1 net2 net3", "1 2 3"), ("net1 net2", "gw1.lan/1 gw1.lan/2"),
+                        ("cluster1.net6 net2", "5 7"), ("cluster1.net6 cluster1.net7", "c1.lan/1 c1.lan/2"), ("net1 net2 net3", "5 7")):
+        p.append((S.T2(nets, params={"slots": slots}).variant(f"/slots={slots!r}"), 1, 1))
+        p.append((S.T2(nets, params={"slots": slots}, lazy=True).variant(f"/lazy,slots={slots!r}"), 0 if q else 1, 1))
     p.append((S.G1(), 0 if q else 1, 3))
     p.append((S.T1("net0").variant("/serial"), 1, 0.5))
     # COMPLETE enumeration (no deviation bound): every duration / outcome / tie-order sequence of small graphs
